@@ -14,11 +14,14 @@ ASSUMPTIONS = [
     "mock providers (id- and path-style, case-sensitive) stand in for real accounts",
     "hazards exclude by construction: PATH_REUSE, DIRMOVE_ISOLATED, DIRMOVE_TOMB, XSIDE (open known findings)",
     "virtual clock; quiet decided by a 400-round step bound",
+    "part inside (a child is moved between directories inside folder X while the other side renames X): only the combinations that hold on the unchanged tree are generated -- the mover's side id-style and a file moving up to X's top level, with both sides id-style also a folder moving up (INSIDE_MOVE_ENVELOPE, open finding KF-50)",
 ]
 
 
 def budget(tier):
-    return {"workers": 16, "examples": 400 if tier == "quick" else 6000}
+    q = tier == "quick"
+    return [{"workers": 16, "examples": 400 if q else 6000},
+            {"part": "inside", "workers": 16, "examples": 40 if q else 1500}]
 
 
 def gen(d, tier):
@@ -29,6 +32,8 @@ def gen(d, tier):
 
 
 def in_domain(trace):
+    if any(a[0] == "u" and a[3] == "/x" for a in trace["acts"]):
+        return in_domain_inside(trace)
     return envelope_ok(trace)
 
 
@@ -59,3 +64,89 @@ class Run(HistoryRun):
 
 def run(trace):
     return Run(trace).execute()
+
+
+# ----------------------------------------------------------------------------- part: moved-inside
+# One side moves an object between two directories INSIDE folder X while the other side renames X (and may change
+# unrelated objects).  The two changes touch different objects -- a child and its ancestor's name -- and commute, so the
+# expected tree is well defined: X under its new name with the child at its new place inside.
+def gen_inside(d, tier):
+    # hazard INSIDE_MOVE_ENVELOPE (open finding KF-50): outside the combinations below the engine reverts or loses the
+    # child's move on the unchanged tree (measured by enumeration: tools/inside_enum.py).  Clean: the mover's side is
+    # id-style and a file moves up to X's top level; with both sides id-style also a folder moving up.
+    L, R, a = d.choice((("id", "id", 0), ("id", "id", 1), ("id", "path", 0), ("path", "id", 1)))
+    cfg = {"L": L, "R": R, "salt": d.int(0, 7)}
+    b = 1 - a               # a moves the child, b renames the folder
+    base = [["u", a, "mkdir", "/x"], ["u", a, "mkdir", "/x/s"], ["u", a, "create", "/x/s/f", "f0"],
+            ["u", a, "create", "/x/k", "k0"], ["u", a, "create", "/o", "o0"], ["u", a, "mkdir", "/x/s/g"],
+            ["u", a, "create", "/x/s/g/h", "h0"], ["settle"]]
+    moves = [("rename", "/x/s/f", "/x/f")]                    # file up to X's top level
+    if L == R == "id":
+        moves.append(("rename", "/x/s/g", "/x/g"))            # folder (with a child) up to X's top level
+    move = d.choice(moves)
+    ops = [["u", a] + list(move), ["u", b, "rename", "/x", "/y"]]
+    if d.bool():
+        ops.reverse()
+    acts = list(base)
+    acts.append(ops[0])
+    for _ in range(d.int(0, 2)):
+        acts.append(["step", d.choice(("EL", "ER"))])       # intake only between the two
+    acts.append(ops[1])
+    if d.bool():
+        acts.append(["u", b, "write", "/o", "o1"])          # the folder-renaming side also edits an unrelated file
+    for _ in range(d.int(0, 8)):
+        who = d.choice(("EL", "ER", "S"))
+        acts.append(["step", who, 0.02] if d.bool() else ["step", who])
+    acts.append(["settle"])
+    return {"cfg": cfg, "acts": acts}
+
+
+class InsideRun(Run):
+    """expected final tree: the user ops applied to the model in canonical order (base, child move, folder rename,
+    the rest) -- the child move is spelled in terms of the old folder name on its own side"""
+    def __init__(self, trace):
+        super().__init__(trace)
+        from ..model import Tree
+        t = Tree()
+        us = [a for a in trace["acts"] if a[0] == "u"]
+        moves = [a for a in us if a[2] == "rename" and a[3].startswith("/x/")]
+        dirmv = [a for a in us if a[2] == "rename" and a[3] == "/x"]
+        rest = [a for a in us if a not in moves and a not in dirmv]
+        base = [a for a in rest if not (a[2] == "write")]
+        late = [a for a in rest if a[2] == "write"]
+        for a in base + moves + dirmv + late:
+            t.apply(*a[2:])
+        self.final = t
+
+    def at_quiet(self, rounds, final):
+        if not final:
+            return
+        e = O.equals_expected(self.case, self.final)
+        if e:
+            raise Stop(violation("no_conflict_artefact" if ".conflicted" in e else "merge_exact", e))
+
+
+def in_domain_inside(trace):
+    us = [a for a in trace["acts"] if a[0] == "u"]
+    acts = trace["acts"]
+    last_u = max(i for i, a in enumerate(acts) if a[0] == "u")
+    if acts[-1][0] != "settle" or sum(1 for a in acts if a[0] == "settle") != 2 or any(a[0] == "settle" for a in acts[acts.index(["settle"]) + 1:last_u]):
+        return False
+    return (sum(1 for a in us if a[2] == "rename" and a[3].startswith("/x/")) == 1 and
+            sum(1 for a in us if a[2] == "rename" and a[3] == "/x") == 1 and
+            sum(1 for a in us if a[2] in ("mkdir", "create")) == 7)
+
+
+def run_inside(trace):
+    if not in_domain_inside(trace):
+        from ..core import invalid
+        return invalid("not a moved-inside scenario")
+    r = InsideRun(trace)
+    out = r.execute()
+    if out["status"] == "ok":
+        out["nontrivial"] = True
+        out["labels"] = ["moved_inside_renamed_folder", "flavour:%s/%s" % (trace["cfg"]["L"], trace["cfg"]["R"])]
+    return out
+
+
+PARTS = {"inside": (gen_inside, run_inside)}
